@@ -57,8 +57,8 @@ class Prop(BaseProp):
     HEADLINE = ["settings_captured", "options_compared", "subset_cases", "random_stacks", "relative_dir_cases",
                 "wrong_type_cases", "wrong_type_rejected"]
 
-    NRAND = {"quick": 500, "thorough": 12000}
-    NREL = {"quick": 120, "thorough": 2000}
+    NRAND = {"quick": 3000, "thorough": 50000}
+    NREL = {"quick": 600, "thorough": 6000}
 
     def n_cases(self, tier):
         return len(ENUM) + self.NRAND[tier] + self.NREL[tier] + len(ENUM_WRONG)
